@@ -252,13 +252,22 @@ contract("xdoctest.core:parse_freeform_docstr_examples.doctest_from_parts",
          params={"parts": "reclist[DoctestPart]", "num": "int", "curr_offset": "int", "docsrc": "str"}, returns="DocTest",
          requires=[("some-part", "len(parts) > 0")],
          raises={"AssertionError?": None},
+         modifies=["field(parts, line_offset)"],
          ensures=[("line-of-the-doctest", "result.lineno == lineno + curr_offset"),
-                  ("numbered", "result.num == num")],
+                  ("numbered", "result.num == num"),
+                  ("first-part-starts-at-zero", "parts[0].line_offset == 0"),
+                  ("parts-rebased", "all(parts[k].line_offset == old(parts[k].line_offset) - old(parts[0].line_offset) "
+                                    "for k in range(len(parts)))")],
+         loops={0: LoopSpec(header="parts", modifies=["field(parts, line_offset)"],
+                            invariants=[("rebased-so-far", "all(parts[k].line_offset == old(parts[k].line_offset) - unoffset for k in range(_i0))"),
+                                        ("rest-untouched", "all(parts[k].line_offset == old(parts[k].line_offset) for k in range(_i0, len(parts)))"),
+                                        ("the-first-offset", "unoffset == old(parts[0].line_offset)")])},
          props=["C08"],
-         opts={"native": False, "closure": {"lineno": "int", "modpath": "Maybe[str]", "callname": "Maybe[str]", "fpath": "Maybe[str]"},
-               "region": {"from": "example = doctest_example.DocTest(", "drop": ["for p in parts:"]}},
-         note="region: from the DocTest construction on (the re-joined source text before it is an arbitrary str here); dropped: the loop "
-              "that rebases the parts' line_offset (in-place mutation of list elements is outside the engine's record-list model)",
+         opts={"native": False, "mutable_fields": ["DoctestPart.line_offset"],
+               "closure": {"lineno": "int", "modpath": "Maybe[str]", "callname": "Maybe[str]", "fpath": "Maybe[str]"},
+               "region": {"from": "example = doctest_example.DocTest("}},
+         note="region: from the DocTest construction on (the re-joined source text before it is an arbitrary str here); the parts' "
+              "offsets are rebased so that the first part starts at 0 (in-place writes to the elements: mutable_fields)",
          sentinel=("line-ignores-offset", "result.lineno == lineno"))
 
 contract("xdoctest.core:parse_freeform_docstr_examples.doctest_from_parts#call",
